@@ -164,9 +164,9 @@ Definition construct (dim : nat) (spatial_dim : option nat) (latlon temporal : b
   | Some (l, a) => Some (mkGeo d latlon temporal (nabs O geo_scale) l a (set_model_angles d angles latlon temporal))
   end.
 
-(* the setters len_scale / anis / angles of CovModel (bounds checks of check_arg_bounds not modelled:
+(* the setters len_scale / anis / angles / dim of CovModel (bounds checks of check_arg_bounds not modelled:
    callers stay inside the bounds) *)
-Inductive gop := OpLen (ls : list T) | OpAnis (a : list T) | OpAngles (a : list T).
+Inductive gop := OpLen (ls : list T) | OpAnis (a : list T) | OpAngles (a : list T) | OpDim (d : nat).
 Definition gstep (m : geomodel) (op : gop) : option geomodel :=
   match op with
   | OpLen ls =>
@@ -182,6 +182,16 @@ Definition gstep (m : geomodel) (op : gop) : option geomodel :=
   | OpAngles ang =>
       Some (mkGeo (g_dim m) (g_latlon m) (g_temporal m) (g_geo_scale m) (g_len_scale m) (g_anis m)
                   (set_model_angles (g_dim m) ang (g_latlon m) (g_temporal m)))
+  | OpDim d =>
+      (* covmodel/tools.py set_dim: forced dimension for lat-lon, ratios re-padded / truncated by set_len_anis (called WITHOUT the
+         latlon flag), angles re-normalised by set_model_angles with the latlon and temporal flags *)
+      let d' := if g_latlon m then 3 + b2n (g_temporal m) else d in
+      if Nat.ltb d' 1 then None else
+      match set_len_anis d' [g_len_scale m] (g_anis m) false with
+      | None => None
+      | Some (l, a) => Some (mkGeo d' (g_latlon m) (g_temporal m) (g_geo_scale m) l a
+                                   (set_model_angles d' (g_angles m) (g_latlon m) (g_temporal m)))
+      end
   end.
 Fixpoint gsteps (m : geomodel) (ops : list gop) : option geomodel :=
   match ops with
